@@ -124,10 +124,44 @@ def series_record(tid, fn, a, dt, trap, rng):
                 o.add_series(af - np.asarray(o.values, dtype=float))
             a = np.asarray(o.values, dtype=float)
             rec["a"] = enc_seq(a)
+        elif fn == "obj_inplace":
+            # history: series and peaks were read (under either rule), then the record was changed IN PLACE through the public API:
+            # the array handed out by .values edited and handed back, a residual correction, a displacement re-basing.  Afterwards
+            # the default (trapezoid) rule applies to the record the object holds now.
+            af = np.asarray(a, dtype=float)
+            if not (np.max(np.abs(af)) > 0):
+                af = af + 1.0
+            o = eqsig.AccSignal(af.copy(), dt)
+            if rng.random() < 0.5:
+                o.generate_displacement_and_velocity_series(trap=False)
+            _ = (o.pgv, o.velocity[-1], o.pgd, o.displacement[-1], o.pga)
+            how = int(rng.integers(5))
+            import warnings as _w
+            with _w.catch_warnings():
+                _w.simplefilter("ignore")
+                if how == 0:
+                    v_ = o.values
+                    v_[len(v_) // 3:] *= 1.5
+                    o.reset_values(v_)
+                elif how == 1:
+                    o.set_zero_residual_velocity()
+                elif how == 2:
+                    o.set_zero_residual_displacement()
+                elif how == 3:
+                    o.rebase_displacement()
+                else:
+                    v_ = o.values
+                    v_ += 0.25 * float(np.max(np.abs(v_)))
+                    o.reset_values(v_)
+            a = np.asarray(o.values, dtype=float)
+            rec["a"] = enc_seq(a)
+            rec["trap"] = True
+            trap = True
+            rec["fn"] = "obj"
         else:
             o = eqsig.AccSignal(a.copy(), dt)
         # the integration rule is switched on the object in every order, with and without peaks read in between
-        r_ = rng.random()
+        r_ = rng.random() if fn != "obj_inplace" else 1.0
         if not trap:
             if r_ < 0.3:
                 _ = (o.pgv, o.pgd)
@@ -181,7 +215,7 @@ def build_traces(path, tier, seed):
         if rng.random() < 0.15:
             a = np.round(a * 100)  # integer-valued floats
         dt = gen.dt(rng)
-        fn = ["arr", "obj", "arr", "obj_hist", "arr2", "obj", "arr"][i % 7]
+        fn = ["arr", "obj", "arr", "obj_hist", "arr2", "obj", "obj_inplace"][i % 7]
         trap = (i % 3) != 2
         if i % 4 == 1:               # integer dtype record (counts): the integrals are fractional
             a = np.round(a / (np.max(np.abs(a)) + 1e-300) * 50).astype(np.int64)
